@@ -404,7 +404,7 @@ M("fmt7-str", "C18", TY, '        return "".join(self.format())', '        retur
 # ---------------------------------------------------------------- C19
 M("fmt2-summaries-flipped", "C19", TY, "            if frame.hide and not show_hidden_frames:\n                continue", "            if frame.hide or not show_hidden_frames:\n                continue", "FMT-2")
 M("fmt2-ctx-summaries-deleted", "C19", TY, "        if self.hide and not show_hidden_frames:\n            return\n", "", "FMT-2")
-M("fmt4-summary-first", "C19", TY, "        if not (self.contexts and self.contexts[-1].is_exiting):\n            yield self.as_stdlib_summary", "        if not (self.contexts and self.contexts[0].is_exiting):\n            yield self.as_stdlib_summary", "FMT-4", accept_analysis_error=True)
+M("fmt4-summary-first", "C19", TY, "        if not (self.contexts and self.contexts[-1].is_exiting):\n            yield self.as_stdlib_summary", "        if not (self.contexts and self.contexts[0].is_exiting):\n            yield self.as_stdlib_summary", ["FMT-4", "FMT-13"], accept_analysis_error=True)
 M("fmt4-summary-always", "C19", TY, "        if not (self.contexts and self.contexts[-1].is_exiting):\n            yield self.as_stdlib_summary", "        if not (self.contexts or self.contexts[-1].is_exiting):\n            yield self.as_stdlib_summary", "FMT-13")
 M("fmt6-locals-raw", "C19", TY, "                name: repr(value) for name, value in self.pyframe.f_locals.items()", "                name: value for name, value in self.pyframe.f_locals.items()", "FMT-6")
 M("fmt6-ctx-locals-obj", "C19", TY, 'save_locals = {"<context manager>": self.description or repr(self.obj)}', 'save_locals = {"<context manager>": self.obj}', "FMT-6")
